@@ -11,7 +11,7 @@ CHECKS = {
    text="1500 (quick) / 30000 (thorough) pipeline runs in the -race build with the verif hooks on. Race reports are parsed from the detector's logs and de-duplicated; released block buffers are poisoned, quarantined and re-verified (write after release), poison in output is read after release, double releases are recorded; the ordering goroutine's event order is compared with the submit order; output bytes are compared with the sequential Writer's; deadlock and leaks are decided from goroutine states, runaway loops from a bound on the hook sites one call passes. Writer runs vary content/block checksums, legacy frames and content sizes (one with a zero header checksum byte); Reader runs include corrupt blocks, failing sources and a Reset while the pipeline of the previous frame is still running. Interleavings are sampled: the evidence reports the number of distinct ones observed.",
    ref="6/C08"),
  "C14": dict(cat="exploration", tech="differential runtime monitoring of the real compressors under real histories (fresh vs reused vs pooled objects, failed calls, related inputs, concurrent pool churn) and of the real Writer across concurrency levels, schedules (perturbation hooks), poisoned pools and Write partitions, in plain and -race builds",
-   text="Block half: every (source, depth, destination size) output of a fresh object is compared byte for byte with the same call after six kinds of history and from the package pools under goroutine churn. Frame half (-race build, poison pool, perturbation): sink bytes for concurrency {1,2,4,16} x 5 partition styles (and ReadFrom x 4 source fragmentation modes) must equal one Write at concurrency 1. Writers with a past (another frame with other options that was closed, abandoned in mid-frame, or whose header write failed; then Reset and Apply) must emit the same bytes as a new Writer.",
+   text="Block half: every (source, depth, destination size) output of a fresh object is compared byte for byte with the same call after six kinds of history and from the package pools under goroutine churn. Frame half (-race build, poison pool, perturbation): sink bytes for concurrency {1,2,4,16} x 5 partition styles (and ReadFrom x 4 source fragmentation modes) must equal one Write at concurrency 1. Writers with a past (another frame with other options that was closed, abandoned in mid-frame, or whose header write failed; then Reset and Apply) must emit the same bytes as a new Writer. Flush scripts: the same Flush byte offsets with different Write partitions at every concurrency level must give identical frames.",
    ref="6/C14"),
  "C15": dict(cat="fault_enumeration", tech="I/O fault enumeration on the real Writer and Reader: a dry run counts the sink / source calls, then every call index fails (persistent and transient; with zero bytes and with a proper prefix / some data); errors are matched with errors.Is against the injected values; fragmenting sources for the independence clause",
    text="Every sink call index of 5 scripts x 12 configurations and every source call index of every seed frame x 6 reader modes is failed in turn; the first injected error must be returned by Write/ReadFrom/Flush or at the latest by Close, the sink must hold a prefix of the fault-free output, a Reader must never end cleanly and must return an injected error, delivered bytes are a prefix. All four fragmentation modes must decode exactly like a plain source.",
@@ -20,13 +20,13 @@ CHECKS = {
    text="1200 (quick) generated linked frames per build covering tiny to maximal blocks, matches reaching one and many blocks back, offset 65535, stored blocks and the 128 KiB trim threshold, each read 8 ways; plus the reference encoder's linked golden file. The evidence counts the cross-block matches, offset-65535 matches and stored blocks that were actually decoded.",
    ref="6/C16"),
  "C18": dict(cat="exploration", tech="per-call contract monitor on the real CompressingReader plus the independent strict frame parser on the concatenated output; read sizes enumerated as all cyclic triples over boundary classes derived from the frame layout; source fault enumeration",
-   text="For 96 (source, options) bases every triple of read-size classes (including sizes that end exactly on a block-record boundary and sizes below the 7-byte header) is executed (all triples for sources up to 70000 bytes, seeded samples above), 400k patterns quick; each result must be one conforming frame for the source with no trailing bytes; every source call index is failed in turn (persistent, with data, and transient on a fragmenting source); a reader reused with Reset after being abandoned mid-stream / read by one exact-length read / read to EOF / never read must again yield one conforming frame.",
+   text="For 96 (source, options) bases every triple of read-size classes (including sizes that end exactly on a block-record boundary and sizes below the 7-byte header) is executed (all triples for sources up to 70000 bytes, seeded samples above), 400k patterns quick; each result must be one conforming frame for the source with no trailing bytes; every source call index is failed in turn (persistent, with data, and transient on a fragmenting source); a reader reused with Reset after being abandoned mid-stream / read by one exact-length read / read to EOF / never read must again yield one conforming frame, also when the next user applies another block size and other checksum flags after Reset. The compression level is observed through a probe whose blocks encode differently per level (a block equal to another level's output is a violation).",
    ref="6/C18"),
  "C20": dict(cat="exploration", tech="end-to-end runtime monitoring of the lz4c binary built against the working tree: files through compress/uncompress in scratch directories, output parsed by the independent frame parser, header bits checked against the usage text, bytes compared with the library Writer, mode bits compared",
    text="192 (quick) / 1500 (thorough) invocation cases over flag sets, file sizes on block boundaries, contents, mode bits, umasks, file and stdin/stdout operation and multi-file invocations.",
    ref="6/C20"),
  "C05": dict(cat="exploration", tech="differential runtime monitoring on corrupted frames: whenever the real Reader ends cleanly, an independent frame parser is run on exactly the consumed bytes (counting source) and must accept them and yield the same output",
-   text="Seed frames of the option combinations are corrupted by every single-bit flip of every structural field (with and without repairing the header checksum), block delete/duplicate/swap/insert/splice (with and without repairing the content checksum), payload flips (with and without repairing the block checksum), multi-bit flips, substitutions and hostile field values; each mutant is read with several concurrency/read-mode combinations. The evidence counts how many mutants the Reader accepted and that the oracle agreed on each.",
+   text="Seed frames of the option combinations are corrupted by every single-bit flip of every structural field (with and without repairing the header checksum), block delete/duplicate/swap/insert/splice (with and without repairing the content checksum), payload flips (with and without repairing the block checksum), multi-bit flips, substitutions and hostile field values; each mutant is read with several concurrency/read-mode combinations. The evidence counts how many mutants the Reader accepted and that the oracle agreed on each. Hand-built frames of more than 4 GiB of content with a wrong content checksum must be refused.",
    ref="6/C05"),
  "C06": dict(cat="fault_enumeration", tech="crash-point enumeration: every prefix length of small frames (structural boundaries +-3 and seeded cuts for large ones) read by real Readers; verdict from the returned error and delivered bytes",
    text="Every cut position 1..len-1 of 26 small seed frames (all option combinations that change the layout, legacy, dependent blocks, a skippable frame in front; half of the readers get a source that also implements io.Seeker) is executed against Readers with concurrency {1,2,4} through Read (buffered and direct) and WriteTo: no clean end of stream, delivered bytes are a prefix. For the three large frames cuts are enumerated at every field boundary +-3 plus seeded interior positions.",
@@ -35,7 +35,7 @@ CHECKS = {
    text="Random, mutated and grammar-built hostile streams and 10M-fold repetitions of a single field are fed to real Readers (concurrency 1 and 4, Read and WriteTo) inside child processes; a child that dies is itself the observation. Liveness is restated as bounded progress on finite budgeted sources. No allocation made directly by library code may exceed 2 x the block maximum the input itself declares + 256 KiB; goroutine stacks may not grow by more than 64 MiB (recursion proportional to the input); peak RSS is recorded as an observation only. WriteTo destinations rotate between a bare writer, a destination with the optional Grow method that records what it is asked to reserve (same bound) and a real bytes.Buffer (reservations through Grow are attributed to the library).",
    ref="6/C07"),
  "C17": dict(cat="exploration", tech="model-based runtime monitoring of call histories: exhaustive enumeration of all call sequences up to length 4 (thorough 5) over parameterised Writer and Reader alphabets plus seeded long and directed sequences, executed on the real objects under an executable lifecycle model, an in-process state-based deadlock monitor, budgeted sinks/sources and differential replay on fresh objects",
-   text="170k histories (quick) are executed on sequential and concurrent objects. The model asserts only the clauses of the property; deadlock is decided from goroutine states (every goroutine inside the library parked, none runnable), runaway loops from call budgets and from a bound on the hook sites one call passes. Every history ends with an unjudged clean-up Close / drain (a hang there is reported). Sequences beyond the bound are sampled.",
+   text="170k histories (quick) are executed on sequential and concurrent objects. The model asserts only the clauses of the property; deadlock is decided from goroutine states (every goroutine inside the library parked, none runnable), runaway loops from call budgets and from a bound on the hook sites one call passes. Every history ends with an unjudged clean-up Close / drain (a hang there is reported). Sequences beyond the bound are sampled. 100 directed histories observe the compression level (applied before the first write, kept across Close/Reset, through ReadFrom, not undone by applying another option) through a probe whose blocks encode differently per level.",
    ref="6/C17"),
  "C01": dict(cat="exploration", tech="differential runtime monitoring: every compressor entry point (package function, fresh, long-lived reused object incl. failed calls in its history; fast and HC at 17 depths) on a class-structured seeded source stream, decoded by the library and by an independent reference decoder",
    text="Real compress/decompress executions over sources built to hit the anchored mechanisms (window edge 65534..65537 with dense runs so the scan reaches it, 16-bit table aliasing beyond 64 KiB, multi-byte length codes, tails around the 14-byte limit, all strings over {a,b} up to length 12/17, sizes to 4 MiB); the evidence counts what the emitted blocks actually contained (offset 65535, matches after 64 KiB, multi-byte lengths). Held on the executions observed; inputs are sampled.",
@@ -59,7 +59,7 @@ CHECKS = {
    text="Every accepted option combination is executed; inputs sit on block boundaries and include crafted zero-checksum contents (block, content and header checksum) and flushed message streams in which a block's size word equals the number of bytes decoded so far; each emitted stream is decoded by fresh Readers through WriteTo and Read with buffered/direct/mixed buffer sequences. Held on the executions observed (about 50k reader runs quick).",
    ref="6/C02"),
  "C09": dict(cat="exploration", tech="online oracle: independent LZ4 frame parser + strict-writer conformance rules (block checksum over stored bytes per the specification) on every stream the real Writer emits",
-   text="Same write stream as C02; the sink bytes are parsed by the independent implementation (magic, descriptor bits, header checksum, block size limits, strict block validity, block checksum domain, end mark, content checksum, no trailing bytes, legacy layout) and compared with the configuration and the input. Required observations: stored blocks, empty stored block, zero-valued block and content checksums, multi-block frames.",
+   text="Same write stream as C02; the sink bytes are parsed by the independent implementation (magic, descriptor bits, header checksum, block size limits, strict block validity, block checksum domain, end mark, content checksum, no trailing bytes, legacy layout) and compared with the configuration and the input. Required observations: stored blocks, zero-valued block and content checksums, multi-block frames. A sample of the accepted frames (all with an empty stored block among them) is also decoded by the reference implementation's lz4 command where it is installed and must give the input (nothing is judged where it is missing).",
    ref="6/C09"),
  "C13": dict(cat="exploration", tech="differential runtime monitoring against an independent XXH32 (exported under the verif tag): exhaustive carry-buffer states, seeded random partitions, 2^32 boundary via state copies",
    text="Every carry-buffer state (0..15 buffered bytes x next-write length class x following write 0..33, fresh and after a stripe) is driven through the real streaming object with Sum32/Sum probes after each write, all one-shot lengths 0..1024 at 4 alignments, seeded random partitions up to 8 MiB, and every total length 2^32-16..2^32+16 (thorough: one-shot on real 4 GiB buffers and the Writer's content-checksum trailer for 2^32+5 bytes). Held-on-what-was-observed, not a proof; the state space of the 16-byte carry buffer is covered completely, content is sampled.",
